@@ -6,7 +6,7 @@ From Coq Require Import String.
 From Coq Require Import List Bool Arith NArith ZArith.
 Import ListNotations.
 Require Import Str Rx RxFacts AsModel G_as_num TextModel TextProofs.
-Require PyLib G_fn_sir RefAs G_fn_sir2 RefJun RefSub RefAsLine G_fn_sir3 RefValue RefAsInit.
+Require PyLib G_fn_sir RefAs G_fn_sir2 RefJun RefSub RefAsLine G_fn_sir3 RefBase RefAsInit.
 
 (* TIE A (function level): the Gallina function GENERATED on this run from AsNumberAnonymizer._generate_as_number_replacement returns, for every
    salt Python can encode and every numeral in range, the decimal text of a number of the same block *)
@@ -48,7 +48,7 @@ Theorem C11_generated_constructor_builds_the_replacement_map :
   RefAsInit.as_build salt nums = Done m ->
   G_fn_sir3.gen_AsNumberAnonymizer____init__ pc fuel (PyLib.VObj cls []) (PyLib.VList (map RefJun.vstr nums)) (RefJun.vstr salt)
   = PyLib.Normal (PyLib.VTuple [PyLib.VNone; PyLib.VObj cls [(PyLib.S_ "salt", RefJun.vstr salt); (PyLib.S_ "as_num_regex", rxv);
-                                                             (PyLib.S_ "as_num_map", RefValue.vlook (RefAsInit.fill [] m))]]).
+                                                             (PyLib.S_ "as_num_map", RefBase.vlook (RefAsInit.fill [] m))]]).
 Proof. exact RefAsInit.gen_as_init_refines. Qed.
 
 Print Assumptions C11_generated_replacement_function_preserves_the_block.
